@@ -7,6 +7,8 @@ Main results (all hypothesis-free apart from the stated range):
 * `ord_ofOrd`       : `1 ≤ n → n ≤ maxOrd → (Date.ofOrd n).ord = n ∧ (Date.ofOrd n).valid`   (CPython `_ord2ymd` is a right inverse)
 * `ofOrd_ord`       : `x.valid → Date.ofOrd x.ord = x`
 * `ord_bounds`, `ord_range`, `ord_lt_of_lexLt`, `ord_lt_iff_lexLt`, `ord_inj` (strict monotonicity of `_ymd2ord`)
+* `isoWeek1Monday_spec/_succ/_mono`, `isoCalendar_spec` (characterisation of `isocalendar()`), `isoYear_unique`,
+  `isoCalendar_weekday`, `isoCalendar_same_week`, `isoYear_of_thursday`, `mondayOrd` (+ `mondayOrd_spec`)
 * `weekdayOrd_lt`, `weekdayOrd_add7`, `isoWeekdayOrd_range`, `isoWeekdayOrd_add7`, `weekdayOrd_add_mul7`
 The round trip is proved for the transcription of CPython's `_ord2ymd` itself (no simplified `ofOrd'`): year part by
 `omega` after generalising the 400/100/4/1-year quotients, in-year part by `decide +kernel` over 365 × 2 cases.
@@ -275,5 +277,193 @@ theorem isoWeekdayOrd_eq (n : Nat) : isoWeekdayOrd n = weekdayOrd n + 1 := rfl
 theorem isoWeekdayOrd_range (n : Nat) : 1 ≤ isoWeekdayOrd n ∧ isoWeekdayOrd n ≤ 7 := by unfold isoWeekdayOrd; omega
 theorem isoWeekdayOrd_add7 (n : Nat) : isoWeekdayOrd (n + 7) = isoWeekdayOrd n := by unfold isoWeekdayOrd; omega
 theorem weekdayOrd_add_mul7 (n k : Nat) : weekdayOrd (n + 7 * k) = weekdayOrd n := by unfold weekdayOrd; omega
+
+/-! ### ISO calendar (`isocalendar`, `_isoweek1monday`) -/
+
+/-- ordinal of the Monday of the ISO week that contains ordinal `n` -/
+def mondayOrd (n : Nat) : Nat := n - weekdayOrd n
+
+theorem mondayOrd_spec (n : Nat) (h : 1 ≤ n) :
+    1 ≤ mondayOrd n ∧ mondayOrd n ≤ n ∧ n < mondayOrd n + 7 ∧ weekdayOrd (mondayOrd n) = 0 ∧
+    n = mondayOrd n + weekdayOrd n := by
+  unfold mondayOrd weekdayOrd; omega
+
+theorem jan1_ord (y : Nat) : (⟨y, 1, 1⟩ : Date).ord = daysBeforeYear y + 1 := by
+  simp [Date.ord, daysBeforeMonth, daysBeforeMonthTbl]
+
+theorem dby_ge (y : Nat) (h : 2 ≤ y) : 365 ≤ daysBeforeYear y := by
+  have := dby_mono_step 1 (y - 1) (by omega)
+  have e : 1 + (y - 1) = y := by omega
+  rw [e] at this; omega
+
+theorem dby_one : daysBeforeYear 1 = 0 := by decide
+
+/-- `_isoweek1monday(y)` is a Monday within 3 days of January 1st. -/
+theorem isoWeek1Monday_spec (y : Nat) (hy : 1 ≤ y) :
+    weekdayOrd (isoWeek1Monday y) = 0 ∧ daysBeforeYear y + 1 ≤ isoWeek1Monday y + 3 ∧
+    isoWeek1Monday y ≤ daysBeforeYear y + 1 + 3 ∧ 1 ≤ isoWeek1Monday y := by
+  unfold isoWeek1Monday
+  simp only [jan1_ord]
+  by_cases h1 : y = 1
+  · subst h1; simp [dby_one, weekdayOrd]
+  · have := dby_ge y (by omega)
+    unfold weekdayOrd
+    generalize daysBeforeYear y = b at *
+    split <;> omega
+
+theorem isoWeek1Monday_succ (y : Nat) (hy : 1 ≤ y) :
+    isoWeek1Monday (y + 1) = isoWeek1Monday y + 364 ∨ isoWeek1Monday (y + 1) = isoWeek1Monday y + 371 := by
+  have a := isoWeek1Monday_spec y hy
+  have b := isoWeek1Monday_spec (y + 1) (by omega)
+  have s := dby_succ y hy
+  have d := diy_eq y
+  unfold weekdayOrd at a b
+  generalize isoWeek1Monday y = p at *
+  generalize isoWeek1Monday (y + 1) = q at *
+  generalize daysBeforeYear y = u at *
+  generalize daysBeforeYear (y + 1) = v at *
+  generalize daysInYear y = w at *
+  split at d <;> omega
+
+theorem isoWeek1Monday_mono {a b : Nat} (ha : 1 ≤ a) (h : a < b) : isoWeek1Monday a + 364 ≤ isoWeek1Monday b := by
+  obtain ⟨k, rfl⟩ : ∃ k, b = a + 1 + k := ⟨b - a - 1, by omega⟩
+  induction k with
+  | zero => have := isoWeek1Monday_succ a ha; simp; omega
+  | succ k ih =>
+    have := isoWeek1Monday_succ (a + 1 + k) (by omega)
+    have := ih (by omega)
+    rw [← Nat.add_assoc]; omega
+
+/-- Characterisation of `date.isocalendar()`: the ISO year is the one whose week-1 Monday interval contains the
+day, week and weekday count from that Monday. -/
+theorem isoCalendar_spec (x : Date) (hv : x.valid = true) :
+    let r := isoCalendar x
+    x.ord = isoWeek1Monday r.1 + 7 * (r.2.1 - 1) + (r.2.2 - 1) ∧ 1 ≤ r.2.1 ∧ 1 ≤ r.2.2 ∧ r.2.2 ≤ 7 ∧
+    x.ord < isoWeek1Monday (r.1 + 1) ∧ 1 ≤ r.1 ∧ (r.1 = x.y ∨ r.1 + 1 = x.y ∨ r.1 = x.y + 1) := by
+  have bnd := ord_bounds x hv
+  rw [valid_iff] at hv
+  have hy : 1 ≤ x.y := hv.1
+  have w := isoWeek1Monday_spec x.y hy
+  have wn := isoWeek1Monday_spec (x.y + 1) (by omega)
+  have ws := isoWeek1Monday_succ x.y hy
+  have wss := isoWeek1Monday_succ (x.y + 1) (by omega)
+  have sy := dby_succ x.y hy
+  have dy : daysInYear x.y = 365 ∨ daysInYear x.y = 366 := by
+    have := diy_eq x.y; split at this <;> omega
+  unfold isoCalendar
+  simp only [Int.fdiv_eq_ediv_of_nonneg _ (show (0:Int) ≤ 7 by omega), Int.fmod_eq_emod_of_nonneg _ (show (0:Int) ≤ 7 by omega)]
+  unfold weekdayOrd at w wn
+  by_cases hneg : ((x.ord : Int) - (isoWeek1Monday x.y : Int)) / 7 < 0
+  · simp only [hneg, if_true]
+    have y2 : 2 ≤ x.y := by
+      by_cases h1 : x.y = 1
+      · exfalso
+        have : isoWeek1Monday 1 = 1 := by decide
+        rw [h1] at hneg bnd; rw [this] at hneg; rw [dby_one] at bnd; omega
+      · omega
+    have wp := isoWeek1Monday_spec (x.y - 1) (by omega)
+    have wps := isoWeek1Monday_succ (x.y - 1) (by omega)
+    have e : x.y - 1 + 1 = x.y := by omega
+    rw [e] at wps ⊢
+    unfold weekdayOrd at wp
+    generalize isoWeek1Monday x.y = p at *
+    generalize isoWeek1Monday (x.y - 1) = q at *
+    generalize x.ord = t at *
+    generalize daysBeforeYear x.y = u at *
+    refine ⟨?_, ?_, ?_, ?_, ?_, ?_, ?_⟩ <;> first | omega | simp
+  · simp only [hneg, if_false]
+    by_cases h52 : ((x.ord : Int) - (isoWeek1Monday x.y : Int)) / 7 ≥ 52 ∧ x.ord ≥ isoWeek1Monday (x.y + 1)
+    · simp only [h52, and_self, if_true]
+      generalize isoWeek1Monday x.y = p at *
+      generalize isoWeek1Monday (x.y + 1) = q at *
+      generalize isoWeek1Monday (x.y + 1 + 1) = q2 at *
+      generalize x.ord = t at *
+      generalize daysBeforeYear x.y = u at *
+      generalize daysBeforeYear (x.y + 1) = u' at *
+      refine ⟨?_, ?_, ?_, ?_, ?_, ?_, ?_⟩ <;> first | omega | simp
+    · simp only [h52, if_false]
+      generalize isoWeek1Monday x.y = p at *
+      generalize isoWeek1Monday (x.y + 1) = q at *
+      generalize x.ord = t at *
+      generalize daysBeforeYear x.y = u at *
+      generalize daysBeforeYear (x.y + 1) = u' at *
+      refine ⟨?_, ?_, ?_, ?_, ?_, ?_, ?_⟩ <;> first | omega | simp
+
+theorem isoWeek1Monday_le {a b : Nat} (ha : 1 ≤ a) (h : a ≤ b) : isoWeek1Monday a ≤ isoWeek1Monday b := by
+  by_cases e : a = b
+  · subst e; omega
+  · have := isoWeek1Monday_mono ha (show a < b by omega); omega
+
+/-- The ISO year of a day is determined by the week-1-Monday interval it falls in. -/
+theorem isoYear_unique (Y Y' t : Nat) (h : 1 ≤ Y) (h' : 1 ≤ Y')
+    (a : isoWeek1Monday Y ≤ t) (b : t < isoWeek1Monday (Y + 1))
+    (a' : isoWeek1Monday Y' ≤ t) (b' : t < isoWeek1Monday (Y' + 1)) : Y = Y' := by
+  by_cases c1 : Y < Y'
+  · have := isoWeek1Monday_le (show 1 ≤ Y + 1 by omega) (show Y + 1 ≤ Y' by omega); omega
+  · by_cases c2 : Y' < Y
+    · have := isoWeek1Monday_le (show 1 ≤ Y' + 1 by omega) (show Y' + 1 ≤ Y by omega); omega
+    · omega
+
+/-- `isocalendar()[2]` is `isoweekday()`. -/
+theorem isoCalendar_weekday (x : Date) (hv : x.valid = true) : (isoCalendar x).2.2 = isoWeekdayOrd x.ord := by
+  have s := isoCalendar_spec x hv
+  simp only at s
+  have w := isoWeek1Monday_spec (isoCalendar x).1 s.2.2.2.2.2.1
+  unfold weekdayOrd at w
+  unfold isoWeekdayOrd
+  generalize isoWeek1Monday (isoCalendar x).1 = p at *
+  omega
+
+/-- Days of the same Monday-to-Sunday block share ISO year and ISO week number. -/
+theorem isoCalendar_same_week (a b : Date) (ha : a.valid = true) (hb : b.valid = true)
+    (h : mondayOrd a.ord = mondayOrd b.ord) :
+    (isoCalendar a).1 = (isoCalendar b).1 ∧ (isoCalendar a).2.1 = (isoCalendar b).2.1 := by
+  have sa := isoCalendar_spec a ha
+  have sb := isoCalendar_spec b hb
+  simp only at sa sb
+  have ra := ord_range a ha
+  have rb := ord_range b hb
+  have wa := isoWeek1Monday_spec (isoCalendar a).1 sa.2.2.2.2.2.1
+  have wa' := isoWeek1Monday_spec ((isoCalendar a).1 + 1) (by omega)
+  have wb := isoWeek1Monday_spec (isoCalendar b).1 sb.2.2.2.2.2.1
+  have wb' := isoWeek1Monday_spec ((isoCalendar b).1 + 1) (by omega)
+  unfold mondayOrd at h
+  unfold weekdayOrd at h wa wa' wb wb'
+  have hy : (isoCalendar a).1 = (isoCalendar b).1 := by
+    apply isoYear_unique _ _ a.ord sa.2.2.2.2.2.1 sb.2.2.2.2.2.1
+    · omega
+    · omega
+    · generalize isoWeek1Monday (isoCalendar b).1 = p at *
+      generalize isoWeek1Monday (isoCalendar a).1 = q at *
+      omega
+    · generalize isoWeek1Monday ((isoCalendar b).1 + 1) = p at *
+      generalize isoWeek1Monday ((isoCalendar a).1 + 1) = q at *
+      omega
+  refine ⟨hy, ?_⟩
+  rw [hy] at sa wa
+  generalize isoWeek1Monday (isoCalendar b).1 = p at *
+  omega
+
+/-- The ISO year of a Thursday is its calendar year (that is how `_parse_one_word_period` reads it off). -/
+theorem isoYear_of_thursday (x : Date) (hv : x.valid = true) (h : weekdayOrd x.ord = 3) : (isoCalendar x).1 = x.y := by
+  have s := isoCalendar_spec x hv
+  simp only at s
+  have bnd := ord_bounds x hv
+  rw [valid_iff] at hv
+  have w := isoWeek1Monday_spec (isoCalendar x).1 s.2.2.2.2.2.1
+  have w' := isoWeek1Monday_spec ((isoCalendar x).1 + 1) (by omega)
+  unfold weekdayOrd at h w w'
+  rcases s.2.2.2.2.2.2 with e | e | e
+  · exact e
+  · exfalso
+    have s5 := s.2.2.2.2.1
+    rw [e] at w' s5
+    generalize isoWeek1Monday x.y = p at *
+    omega
+  · exfalso
+    have s1 := s.1
+    rw [e] at w s1
+    generalize isoWeek1Monday (x.y + 1) = p at *
+    omega
 
 end RTV.Cal
